@@ -3,6 +3,7 @@ package main
 // Symbolic executor over the typed AST: statements, control flow, loops.
 
 import (
+	"os"
 	"bytes"
 	"fmt"
 	"go/ast"
@@ -1241,6 +1242,9 @@ func (fv *FV) havocMods(st *State, ms *modSet, what string) {
 		st.vars[o] = nv
 	}
 	if ms.heapAll {
+		if os.Getenv("GOCV_DEBUG_MODS") != "" {
+			fmt.Fprintf(os.Stderr, "heapAll havoc in %s\n", what)
+		}
 		for _, k := range sortedKeys(st.heap) {
 			fv.havocHeapKey(st, k)
 		}
@@ -1269,6 +1273,9 @@ func (fv *FV) havocMods(st *State, ms *modSet, what string) {
 			refs = append(refs, v.T)
 		}
 		if !precise {
+			if os.Getenv("GOCV_DEBUG_MODS") != "" {
+				fmt.Fprintf(os.Stderr, "imprecise havoc %s in %s: bases=%v\n", k, what, bases)
+			}
 			fv.havocHeapKey(st, k)
 			continue
 		}
